@@ -44,6 +44,9 @@ type remergeSite struct {
 	// direct[i]: parameter i (the receiver first, when there is one) needs no binding: the helper's text uses the
 	// caller's variable of the same name directly (see directParameters)
 	direct []bool
+	next   ast.Stmt // the statement that follows the call statement in its list
+	// endPos: end of the replaced text (the statement, or the statement and the error test that follows it)
+	withNext bool
 }
 
 var remergeLog []string
@@ -210,10 +213,25 @@ func remergeOverlay(u *Universe, base map[string][]byte) (map[string][]byte, []s
 					break
 				}
 				labelN++
+				if s.kind == "subexpr" {
+					txt, reason := exprText(u, info, h, hSrc, s, src(s.fileName))
+					if reason != "" {
+						okAll, why = false, reason
+						break
+					}
+					texts = append(texts, edit{off(s.call.Pos()), off(s.call.End()), txt})
+					siteFiles = append(siteFiles, s.fileName)
+					continue
+				}
 				txt, reason := inlineText(u, info, h, hSrc, s, src(s.fileName), labelN)
 				if reason != "" {
 					okAll, why = false, reason
 					break
+				}
+				if strings.HasSuffix(txt, "\x00withnext") {
+					texts = append(texts, edit{off(s.stmt.Pos()), off(s.next.End()), strings.TrimSuffix(txt, "\x00withnext")})
+					siteFiles = append(siteFiles, s.fileName)
+					continue
 				}
 				texts = append(texts, edit{off(s.stmt.Pos()), off(s.stmt.End()), txt})
 				siteFiles = append(siteFiles, s.fileName)
@@ -346,14 +364,14 @@ func classifySite(info *types.Info, stack []ast.Node, id *ast.Ident) (remergeSit
 	switch x := stack[i].(type) {
 	case *ast.ReturnStmt:
 		if len(x.Results) != 1 || x.Results[0] != ast.Expr(call) {
-			return site, "call inside a larger return expression"
+			return subexprSite(stack, call)
 		}
 		stmt, site.kind = x, "return"
 	case *ast.ExprStmt:
 		stmt, site.kind = x, "expr"
 	case *ast.AssignStmt:
 		if len(x.Rhs) != 1 || x.Rhs[0] != ast.Expr(call) {
-			return site, "call inside a larger assignment"
+			return subexprSite(stack, call)
 		}
 		switch x.Tok {
 		case token.ASSIGN:
@@ -366,11 +384,11 @@ func classifySite(info *types.Info, stack []ast.Node, id *ast.Ident) (remergeSit
 		stmt = x
 	case *ast.ValueSpec:
 		if len(x.Values) != 1 || x.Values[0] != ast.Expr(call) || i < 2 {
-			return site, "call inside a larger declaration"
+			return subexprSite(stack, call)
 		}
 		gd, ok := stack[i-1].(*ast.GenDecl)
 		if !ok || len(gd.Specs) != 1 || gd.Tok != token.VAR {
-			return site, "call inside a declaration group"
+			return subexprSite(stack, call)
 		}
 		ds, ok := stack[i-2].(*ast.DeclStmt)
 		if !ok {
@@ -379,38 +397,50 @@ func classifySite(info *types.Info, stack []ast.Node, id *ast.Ident) (remergeSit
 		stmt, site.kind = ds, "var"
 		i -= 2
 	default:
-		return site, "call inside an expression"
+		return subexprSite(stack, call)
 	}
 	site.stmt = stmt
 	// the statement must be an element of a statement list
 	inList := false
+	var list []ast.Stmt
 	switch par := stack[i-1].(type) {
 	case *ast.BlockStmt:
-		for _, s := range par.List {
-			if s == stmt {
-				inList = true
-			}
-		}
+		list = par.List
 	case *ast.CaseClause:
-		for _, s := range par.Body {
-			if s == stmt {
-				inList = true
-			}
-		}
+		list = par.Body
 	case *ast.CommClause:
-		for _, s := range par.Body {
-			if s == stmt {
-				inList = true
+		list = par.Body
+	}
+	for k, s := range list {
+		if s == stmt {
+			inList = true
+			if k+1 < len(list) {
+				site.next = list[k+1]
 			}
 		}
 	}
 	if !inList {
-		return site, "call in the header of an if / for / switch"
+		return subexprSite(stack, call)
 	}
 	for j := i - 1; j >= 0; j-- {
 		switch stack[j].(type) {
 		case *ast.FuncDecl, *ast.FuncLit:
 			site.enclosing = stack[j]
+			// a call statement that is the last statement of a function without results stands in a return position:
+			// the helper's `return` is the caller's
+			if site.kind == "expr" {
+				var body *ast.BlockStmt
+				var ftype *ast.FuncType
+				switch e := stack[j].(type) {
+				case *ast.FuncDecl:
+					body, ftype = e.Body, e.Type
+				case *ast.FuncLit:
+					body, ftype = e.Body, e.Type
+				}
+				if body != nil && (ftype.Results == nil || len(ftype.Results.List) == 0) && len(body.List) > 0 && body.List[len(body.List)-1] == site.stmt {
+					site.kind = "return"
+				}
+			}
 			return site, ""
 		}
 	}
@@ -721,6 +751,11 @@ func inlineText(u *Universe, info *types.Info, h *ast.FuncDecl, hSrc []byte, s r
 		sb.WriteString("\n}")
 		return sb.String(), ""
 	}
+	// ---- `x, err := H(..)` followed by `if err != nil { handler }`: a helper whose early returns are all error exits
+	if txt, ok := errorHelperText(u, info, h, hSrc, s, sSrc, binds, sig); ok {
+		s.withNext = true
+		return txt + "\x00withnext", ""
+	}
 	// ---- non-return position: only helpers whose control flow needs no translation are substituted - the body has no
 	// `return` except, possibly, one as its last statement (results go to temporaries). A helper with early returns in
 	// such a position would turn into correlated values after a join (result valid iff err == nil), which is exactly
@@ -908,4 +943,354 @@ func writeOverlayFiles(dir string, repo string, overlay map[string][]byte) (stri
 	j, _ := json.Marshal(map[string]any{"Replace": repl})
 	path := filepath.Join(dir, "overlay.json")
 	return path, os.WriteFile(path, j, 0o644)
+}
+
+// subexprSite: the call is part of a larger expression; only a helper that is a single expression can be substituted
+// there (decided in inlineText)
+func subexprSite(stack []ast.Node, call *ast.CallExpr) (remergeSite, string) {
+	site := remergeSite{call: call, kind: "subexpr"}
+	for j := len(stack) - 1; j >= 0; j-- {
+		switch stack[j].(type) {
+		case *ast.FuncDecl, *ast.FuncLit:
+			site.enclosing = stack[j]
+			return site, ""
+		}
+	}
+	return site, "call outside a function"
+}
+
+// exprText: for a helper whose body is `return <expr>` and a call whose arguments are plain names or literals: the
+// expression with every parameter replaced by its argument
+func exprText(u *Universe, info *types.Info, h *ast.FuncDecl, hSrc []byte, s remergeSite, sSrc []byte) (string, string) {
+	if len(h.Body.List) != 1 {
+		return "", "not a single-expression helper (call inside an expression)"
+	}
+	ret, ok := h.Body.List[0].(*ast.ReturnStmt)
+	if !ok || len(ret.Results) != 1 {
+		return "", "not a single-expression helper (call inside an expression)"
+	}
+	off := func(pos token.Pos) int { return u.Fset.Position(pos).Offset }
+	var params []*ast.Ident
+	var args []ast.Expr
+	if h.Recv != nil && len(h.Recv.List) == 1 {
+		se, ok := ast.Unparen(s.call.Fun).(*ast.SelectorExpr)
+		if !ok || len(h.Recv.List[0].Names) != 1 {
+			return "", "receiver"
+		}
+		params = append(params, h.Recv.List[0].Names[0])
+		args = append(args, se.X)
+	}
+	for _, fld := range h.Type.Params.List {
+		if len(fld.Names) == 0 {
+			return "", "unnamed parameter"
+		}
+		params = append(params, fld.Names...)
+	}
+	args = append(args, s.call.Args...)
+	if len(params) != len(args) {
+		return "", "argument count"
+	}
+	argOf := map[types.Object]string{}
+	for i, p := range params {
+		switch a := ast.Unparen(args[i]).(type) {
+		case *ast.Ident, *ast.BasicLit:
+			_ = a
+		default:
+			return "", "an argument is not a plain name or literal (call inside an expression)"
+		}
+		// the argument must convert to the parameter type without changing meaning: identical types, or a constant
+		if tv, ok := info.Types[args[i]]; !ok || (tv.Value == nil && !types.Identical(tv.Type, info.Defs[p].Type())) {
+			return "", "argument type differs from the parameter type"
+		}
+		argOf[info.Defs[p]] = "(" + string(sSrc[off(args[i].Pos()):off(args[i].End())]) + ")"
+	}
+	// no function literal in the expression (it could capture and change a parameter)
+	bad := false
+	type ed struct {
+		from, to int
+		text     string
+	}
+	var eds []ed
+	base := off(ret.Results[0].Pos())
+	ast.Inspect(ret.Results[0], func(n ast.Node) bool {
+		switch x := n.(type) {
+		case *ast.FuncLit:
+			bad = true
+		case *ast.UnaryExpr:
+			if x.Op == token.AND {
+				bad = true
+			}
+		case *ast.Ident:
+			if t, ok := argOf[info.Uses[x]]; ok {
+				eds = append(eds, ed{off(x.Pos()) - base, off(x.End()) - base, t})
+			}
+		}
+		return true
+	})
+	if bad {
+		return "", "function literal or address-of in the helper's expression"
+	}
+	b := []byte(string(hSrc[base:off(ret.Results[0].End())]))
+	sort.Slice(eds, func(i, j int) bool { return eds[i].from > eds[j].from })
+	for _, e := range eds {
+		b = append(b[:e.from], append([]byte(e.text), b[e.to:]...)...)
+	}
+	return "(" + string(b) + ")", ""
+}
+
+// errorHelperText: the call statement `x…, err := H(..)` (or `=`) is followed by `if err != nil { handler }` whose
+// body ends the function, and H has one normal exit - its last statement `return v…, nil` - while every other return
+// of H is an error exit (`return …, E` with E a call or a variable tested non-nil by the enclosing if). Then the pair
+// of statements is equivalent to H's body with each error exit replaced by the handler (err bound to E) and the normal
+// exit replaced by the assignment of the values: no value depends on a join, control flow is what a programmer would
+// have written by hand.
+func errorHelperText(u *Universe, info *types.Info, h *ast.FuncDecl, hSrc []byte, s remergeSite, sSrc []byte, binds []string, sig *types.Signature) (string, bool) {
+	if s.kind != "define" && s.kind != "assign" {
+		return "", false
+	}
+	n := sig.Results().Len()
+	if n < 1 || !isErrorType(sig.Results().At(n-1).Type()) || h.Type.Results == nil {
+		return "", false
+	}
+	as := s.stmt.(*ast.AssignStmt)
+	if len(as.Lhs) != n {
+		return "", false
+	}
+	var lhs []*ast.Ident
+	for _, l := range as.Lhs {
+		id, ok := l.(*ast.Ident)
+		if !ok {
+			return "", false
+		}
+		lhs = append(lhs, id)
+	}
+	errID := lhs[n-1]
+	if errID.Name == "_" {
+		return "", false
+	}
+	errObj := info.Defs[errID]
+	if errObj == nil {
+		errObj = info.Uses[errID]
+	}
+	// the following statement: if err != nil { …; return/panic }
+	ifs, ok := s.next.(*ast.IfStmt)
+	if !ok || ifs.Init != nil || ifs.Else != nil || len(ifs.Body.List) == 0 {
+		return "", false
+	}
+	cond, ok := ifs.Cond.(*ast.BinaryExpr)
+	if !ok || cond.Op != token.NEQ {
+		return "", false
+	}
+	cx, ok1 := ast.Unparen(cond.X).(*ast.Ident)
+	cy, ok2 := ast.Unparen(cond.Y).(*ast.Ident)
+	if !ok1 || !ok2 || info.Uses[cx] != errObj || cy.Name != "nil" {
+		return "", false
+	}
+	switch last := ifs.Body.List[len(ifs.Body.List)-1].(type) {
+	case *ast.ReturnStmt:
+	case *ast.ExprStmt:
+		call, isCall := last.X.(*ast.CallExpr)
+		if id, isID := call.Fun.(*ast.Ident); !isCall || !isID || id.Name != "panic" {
+			return "", false
+		}
+	default:
+		return "", false
+	}
+	off := func(pos token.Pos) int { return u.Fset.Position(pos).Offset }
+	// ---- H's returns
+	if len(h.Body.List) == 0 {
+		return "", false
+	}
+	final, ok := h.Body.List[len(h.Body.List)-1].(*ast.ReturnStmt)
+	if !ok || len(final.Results) != n {
+		return "", false
+	}
+	if id, isID := ast.Unparen(final.Results[n-1]).(*ast.Ident); !isID || id.Name != "nil" {
+		return "", false
+	}
+	type exit struct {
+		ret *ast.ReturnStmt
+	}
+	var exits []exit
+	okExits := true
+	var stack []ast.Node
+	ast.Inspect(h.Body, func(nd ast.Node) bool {
+		if nd == nil {
+			stack = stack[:len(stack)-1]
+			return true
+		}
+		stack = append(stack, nd)
+		switch x := nd.(type) {
+		case *ast.FuncLit:
+			stack = stack[:len(stack)-1]
+			return false
+		case *ast.ReturnStmt:
+			if x == final {
+				return true
+			}
+			if len(x.Results) != n {
+				okExits = false
+				return true
+			}
+			e := ast.Unparen(x.Results[n-1])
+			nonNil := false
+			switch y := e.(type) {
+			case *ast.CallExpr:
+				nonNil = true
+			case *ast.Ident:
+				// guarded by the innermost enclosing `if y != nil`
+				for j := len(stack) - 2; j >= 0 && !nonNil; j-- {
+					if is, isIf := stack[j].(*ast.IfStmt); isIf {
+						if c, isB := is.Cond.(*ast.BinaryExpr); isB && c.Op == token.NEQ {
+							a, okA := ast.Unparen(c.X).(*ast.Ident)
+							b, okB := ast.Unparen(c.Y).(*ast.Ident)
+							if okA && okB && b.Name == "nil" && info.Uses[a] != nil && info.Uses[a] == info.Uses[y] {
+								// the return lies in the body (not the else part)
+								if j+1 < len(stack) && stack[j+1] == ast.Node(is.Body) {
+									nonNil = true
+								}
+							}
+						}
+						break
+					}
+				}
+			}
+			if !nonNil {
+				okExits = false
+			}
+			exits = append(exits, exit{x})
+		}
+		return true
+	})
+	if !okExits {
+		return "", false
+	}
+	// ---- the handler: err is replaced by a fresh name; it must not mention the other assigned variables, nor a name
+	// that H declares
+	declaredInH := map[string]bool{}
+	ast.Inspect(h, func(nd ast.Node) bool {
+		if id, ok := nd.(*ast.Ident); ok && info.Defs[id] != nil {
+			declaredInH[id.Name] = true
+		}
+		return true
+	})
+	others := map[types.Object]bool{}
+	for _, id := range lhs[:n-1] {
+		if o := info.Defs[id]; o != nil {
+			others[o] = true
+		} else if o := info.Uses[id]; o != nil {
+			others[o] = true
+		}
+	}
+	fresh := fmt.Sprintf("znErr%d", off(s.call.Pos()))
+	hb := off(ifs.Body.Lbrace + 1)
+	handler := []byte(string(sSrc[hb:off(ifs.Body.Rbrace)]))
+	type ed struct {
+		from, to int
+		text     string
+	}
+	var heds []ed
+	bad := false
+	ast.Inspect(ifs.Body, func(nd ast.Node) bool {
+		id, ok := nd.(*ast.Ident)
+		if !ok {
+			return true
+		}
+		o := info.Uses[id]
+		if o == nil {
+			return true
+		}
+		if o == errObj {
+			heds = append(heds, ed{off(id.Pos()) - hb, off(id.End()) - hb, fresh})
+			return true
+		}
+		if others[o] {
+			bad = true
+		}
+		if v, isVar := o.(*types.Var); isVar && v.IsField() {
+			return true
+		}
+		if declaredInH[id.Name] {
+			bad = true
+		}
+		return true
+	})
+	if bad {
+		return "", false
+	}
+	sort.Slice(heds, func(i, j int) bool { return heds[i].from > heds[j].from })
+	for _, e := range heds {
+		handler = append(handler[:e.from], append([]byte(e.text), handler[e.to:]...)...)
+	}
+	// ---- H's body with the exits rewritten
+	bb := off(h.Body.Lbrace + 1)
+	body := []byte(string(hSrc[bb:off(h.Body.Rbrace)]))
+	var beds []ed
+	text := func(e ast.Expr) string { return string(hSrc[off(e.Pos()):off(e.End())]) }
+	for _, x := range exits {
+		// the other results of an error exit are evaluated for their effects only when they are calls; plain values vanish
+		for _, r := range x.ret.Results[:n-1] {
+			if _, isCall := ast.Unparen(r).(*ast.CallExpr); isCall {
+				return "", false
+			}
+		}
+		t := "{\nvar " + fresh + " error = " + text(x.ret.Results[n-1]) + "\n_ = " + fresh + "\n" + string(handler) + "\n}"
+		beds = append(beds, ed{off(x.ret.Pos()) - bb, off(x.ret.End()) - bb, t})
+	}
+	// normal exit: assign the values
+	var names, vals []string
+	for i, id := range lhs[:n-1] {
+		if id.Name == "_" {
+			if _, isCall := ast.Unparen(final.Results[i]).(*ast.CallExpr); isCall {
+				return "", false
+			}
+			continue
+		}
+		names = append(names, id.Name)
+		vals = append(vals, text(final.Results[i]))
+	}
+	asg := ""
+	if len(names) > 0 {
+		// the assigned names must not be shadowed by H's own declarations
+		for _, nm := range names {
+			if declaredInH[nm] {
+				return "", false
+			}
+		}
+		asg = strings.Join(names, ", ") + " = " + strings.Join(vals, ", ")
+	}
+	// the error variable is nil after the normal exit (assigned after the block: H usually has an `err` of its own)
+	after := ""
+	if s.kind == "assign" || info.Defs[errID] == nil {
+		after = errID.Name + " = nil\n"
+	}
+	beds = append(beds, ed{off(final.Pos()) - bb, off(final.End()) - bb, asg})
+	sort.Slice(beds, func(i, j int) bool { return beds[i].from > beds[j].from })
+	for _, e := range beds {
+		body = append(body[:e.from], append([]byte(e.text), body[e.to:]...)...)
+	}
+	// ---- declarations of the variables the call statement introduces
+	var sb strings.Builder
+	k := 0
+	for _, fld := range h.Type.Results.List {
+		rt := string(hSrc[off(fld.Type.Pos()):off(fld.Type.End())])
+		cnt := len(fld.Names)
+		if cnt == 0 {
+			cnt = 1
+		}
+		for j := 0; j < cnt; j++ {
+			id := lhs[k]
+			k++
+			if s.kind == "define" && info.Defs[id] != nil && id.Name != "_" {
+				sb.WriteString("var " + id.Name + " " + rt + "\n_ = " + id.Name + "\n")
+			}
+		}
+	}
+	sb.WriteString("{\n")
+	for _, b := range binds {
+		sb.WriteString(b + "\n")
+	}
+	sb.Write(body)
+	sb.WriteString("\n}\n" + after)
+	return sb.String(), true
 }
